@@ -1,4 +1,4 @@
-\* as built: roll-back on. TLC is EXPECTED to find the withhold / unprotected / replay counterexample.
+\* as built: roll-back on. TLC is EXPECTED to find the withhold / unprotected / replay counterexample to Authentic.
 CONSTANTS
   M = 16
   MaxEx = 3
@@ -8,4 +8,5 @@ CONSTANTS
   NakedRollback = TRUE
   AdvBudget = 3
 SPECIFICATION Spec
+VIEW View
 INVARIANTS Authentic
